@@ -91,6 +91,7 @@ func runC01(c *Ctx) {
 	defer runC01MidResult(c, w)
 	defer runC01MixedKeys(c, w)
 	defer runC01UniqueCollisions(c, w)
+	defer runC01BinaryKeys(c, w)
 	rng := NewRng(c.Seed)
 	n := c.Budget(300, 30000)
 	// branches whose images span the IN-list batch size of the image and undo queries (1000 keys)
